@@ -36,7 +36,7 @@ PATHS = ['kw', 'pos', 'mixed', 'mapping', 'sequence', 'unchecked']
 
 @st.composite
 def cases(draw, ftypes: st.SearchStrategy[t.Any]) -> t.Any:
-    spec = draw(cg.class_specs(ftypes, max_fields=4))
+    spec = draw(cg.class_specs(ftypes, max_fields=4, flags=True))      # flags: one class in four is not frozen
     cs = dict(spec[1])
     cs['count_post'] = True
     spec = ('cls', cs)
@@ -163,6 +163,25 @@ def check(case: t.Any, ctx: Ctx) -> None:
     if set(so) != set(names):
         ctx.fail('set-fields-exact', path, f"{ident}; dict(set_only=True) has keys {sorted(so)}, supplied were {sorted(names)}")
         return
+    if nd.opts.get('frozen') is False:
+        # a non-frozen instance: assigning to a field supplies it (the record gains exactly that field); the record is one of
+        # *fields* - an attribute that is no field of the class does not enter it, and dict(set_only=True) stays a dict of fields
+        (km, m) = build(nd, path, npos, supplied)
+        if km == 'ok':
+            ctx.evaluated()
+            want = set(names)
+            for f in nd.fields:
+                if f.init and f.name not in names:
+                    setattr(m, f.name, getattr(m, f.name))
+                    want.add(f.name)
+                    break
+            (ka, _) = outcome(lambda: setattr(m, 'scratch_note', 1))
+            got = outcome(lambda: set(m.dict(set_only=True)))
+            if got != ('ok', want):
+                ctx.fail('set-fields-exact', 'assignment', f"{ident}; after assigning to {sorted(want - set(names))} and "
+                         f"{'setting' if ka == 'ok' else 'trying to set'} a non-field attribute, dict(set_only=True) has keys "
+                         f"{sorted(got[1]) if got[0] == 'ok' else repr(got[1])}, expected {sorted(want)}")
+                return
     if path == 'unchecked':
         for (n, _, v) in supplied:
             if getattr(inst, n) is not v:
